@@ -1384,9 +1384,18 @@ def analyse(rec, c, k, out_path, inp_path, payload, driver=None):
         # rows whose sampled combination occurs more than once first (discrete inputs): they are where a result cached or
         # left over from another iteration would be served; then an even spread
         seen_k = collections.Counter(tuple(p_[1] for p_ in r[2]) for r in cand)
-        rep_rows = [r for r in cand if seen_k[tuple(p_[1] for p_ in r[2])] > 1]
+        # ... after the rows that record sampled values which no successfully simulated iteration's input file held (whatever
+        # went wrong between the draw and the file - a failed write that nobody noticed - the row's outputs then belong to other
+        # values)
+        own_k = {it['key'] for it in ok_iters}
+        odd_rows = [r for r in cand if ';'.join(f'{n_}:{v_}' for n_, v_ in r[2]) + ';' not in own_k][:max(2, nrep // 2)]
+        if odd_rows:
+            k.probes['rows_recording_values_no_input_file_held'] += len(odd_rows)
+            rec['probes'] = dict(k.probes)
+        rep_rows = odd_rows + [r for r in cand if seen_k[tuple(p_[1] for p_ in r[2])] > 1 and r not in odd_rows]
         if len(rep_rows) > nrep:
-            rep_rows = rep_rows[-nrep:]
+            rest_n = nrep - len(odd_rows)
+            rep_rows = odd_rows + (rep_rows[len(odd_rows):][-rest_n:] if rest_n > 0 else [])
         rest = [r for r in cand if r not in rep_rows]
         need = nrep - len(rep_rows)
         step = len(rest) / need if need > 0 and rest else 0
